@@ -643,11 +643,17 @@ Error Message: {}
                     m.add_string(keyblob)
                     self.transport._send_message(m)
                     return
-                sig = Message(m.get_binary())
+                sig_bytes = m.get_binary()
+                sig = Message(sig_bytes)
                 blob = self._get_session_blob(
                     key, service, username, algorithm
                 )
-                if not key.verify_ssh_sig(blob, sig):
+                # the signature must use the algorithm named in the request
+                expected = algorithm.replace("-cert-v01@openssh.com", "")
+                if Message(sig_bytes).get_string() != expected.encode("utf-8"):
+                    self._log(INFO, "Auth rejected: signature algorithm")
+                    result = AUTH_FAILED
+                elif not key.verify_ssh_sig(blob, sig):
                     self._log(INFO, "Auth rejected: invalid signature")
                     result = AUTH_FAILED
         elif method == "keyboard-interactive":
